@@ -750,7 +750,7 @@ class Formula:
         k = t[0]
         if k == 'lit' and isinstance(t[1], bool):
             return
-        if k == 'b' and t[1] in ('&&', '||'):
+        if k == 'b' and t[1] in ('&&', '||', '&', '|'):
             self.scan(t[2]); self.scan(t[3]); return
         if k == 'u' and t[1] == '!':
             self.scan(t[2]); return
@@ -777,9 +777,9 @@ class Formula:
         k = t[0]
         if k == 'lit':
             return bool(t[1])
-        if k == 'b' and t[1] == '&&':
+        if k == 'b' and t[1] in ('&&', '&'):
             return self._eval(t[2], rel, bl) and self._eval(t[3], rel, bl)
-        if k == 'b' and t[1] == '||':
+        if k == 'b' and t[1] in ('||', '|'):
             return self._eval(t[2], rel, bl) or self._eval(t[3], rel, bl)
         if k == 'u':
             return not self._eval(t[2], rel, bl)
@@ -1160,3 +1160,18 @@ def ctor_fields(tu, f, v, pick_target, depth=0):
             return None, 'field %s initialised twice' % fld
         got[fld] = t
     return got, None
+
+
+def select_to_minmax(t):
+    """`a < b ? b : a` is std::max(a, b), `b < a ? b : a` is std::min(a, b) (exactly their definitions); `>`/`>=`/`<=` forms
+    that select the same value for every ordered pair are rewritten too"""
+    def f(x):
+        if x[0] == '?:' and x[1][0] == 'b' and x[1][1] in ('<', '>', '<=', '>='):
+            op, l, r = x[1][1], x[1][2], x[1][3]
+            if op in ('>', '>='):
+                op, l, r = ('<' if op == '>' else '<='), r, l
+            # now: (l < r) or (l <= r)
+            if {x[2], x[3]} == {l, r} and x[2] != x[3]:
+                return ('call', 'max' if x[2] == r else 'min', (l, r))
+        return x
+    return map_terms(t, f)
